@@ -90,7 +90,7 @@ void run_grid(vf::Ctx& c, const char* tname, double res_d, const std::vector<Pai
     // spacing
     for (size_t n = 0; n + 1 < N[d]; ++n) {
       long double sp = (long double)cen[n + 1] - (long double)cen[n];
-      if (fabsl(sp - (long double)res) > 2 * (long double)ulp<S>(maxB + res)) {
+      if (fabsl(sp - (long double)res) > 2 * (long double)ulp<S>(2 * (maxB + res))) {   // a centre is origin + (n+0.5) res: the product is rounded at the magnitude of the extent (up to 2 maxB), which can lie one binade above the centre itself
         c.violation("GridIndexMapping.centreSpacing", params(nullptr), vf::JO().i("axis", d).u("n", n).num("spacing", sp).done());
         break;
       }
